@@ -217,6 +217,9 @@ class Emit:
             first = s[1] not in self.seen
             self.seen.add(s[1])
             return ['lab', str(n), 'df' if first else 'as', str(s[1])] + expr_tok(s[2], n)
+        if k == 'aug':
+            n = self.line(f"{ind}{var_py(s[1])} {OPS[s[2]]}= {expr_py(s[3])}")
+            return ['lab', str(n), 'as', str(s[1])] + expr_tok(('bin', s[2], ('v', s[1]), s[3]), n)
         if k == 'de':
             n = self.line(f"{ind}{var_py(s[1])}: {ty_py(s[2])} = {expr_py(s[3])}")
             self.seen.add(s[1])
@@ -969,6 +972,11 @@ class Gen:
             return [('as', x, e)]
         if k < 0.55:
             ws = [x for x in ctx['decl'] if x not in ctx['ro'] and x in ctx['bel']]
+            augs = [x for x in ws if psub(self.p, ctx['bel'][x], INT) and psub(self.p, INT, ctx['decl'][x])]
+            if augs and r.random() < 0.25:
+                x = r.choice(sorted(augs))
+                ctx['bel'][x] = INT
+                return [('aug', x, r.choice(['+', '-', '*']), self.expr(ctx, INT, 1))]
             if ws:
                 x = r.choice(sorted(ws))
                 g = r.choice(members(ctx['decl'][x])) if r.random() < 0.6 else ctx['decl'][x]
@@ -1421,6 +1429,12 @@ def corpus() -> list[tuple[str, dict, list]]:
     # ill-typed on purpose: the return check must see through a conditional expression
     body = [('ret', ('if', ('bin', '<', V(1), ('I', 3)), ('S', 'a'), V(1)))]
     out.append(("reject-return-conditional", {'classes': [], 'funcs': [(1, {'params': [(1, INT)], 'ret': INT, 'body': body})]}, []))
+    # augmented assignment on ints / strs (printer sugar for x = x op e)
+    body = [('de', 2, INT, ('I', 0)), ('as', 2, ('B', True)), ('ex', ('rev', V(2))), ('aug', 2, '+', V(1)), ('ex', ('rev', V(2))),
+            ('de', 3, ('U', [STR, INT, NONE]), ('N',)), ('as', 3, ('S', 'a')), ('aug', 3, '+', ('S', 'b')), ('ex', ('rev', V(3))),
+            ('as', 3, ('I', 3)), ('aug', 3, '*', ('I', 2)), ('ex', ('rev', V(3))), ('ret', V(2))]
+    out.append(("augmented-int-str", {'classes': [], 'funcs': [(1, {'params': [(1, INT)], 'ret': INT, 'body': body})]},
+                [(1, [['i', 2]]), (1, [['b', 1]])]))
     # break out of a try block whose finally re-assigns the narrowed local
     body = [('de', 2, OI, ('N',)), ('as', 2, ('I', 1)),
             ('wh', ('bin', '<', V(1), ('I', 3)), [('as', 1, ('bin', '+', V(1), ('I', 1))), ('fin', [('brk',)], [('as', 2, ('N',))])], []),
@@ -1500,6 +1514,8 @@ def map_prog(p: dict, fe=None, fs=None) -> dict:
             if k == 'as':
                 s = (k, s[1], ex(s[2]))
             elif k == 'de':
+                s = (k, s[1], s[2], ex(s[3]))
+            elif k == 'aug':
                 s = (k, s[1], s[2], ex(s[3]))
             elif k in ('ret', 'ast', 'ex'):
                 s = (k, ex(s[1]))
@@ -1627,6 +1643,8 @@ CAP_KEY = "accept_loop-iteration-cap"
 MI_KEY = "isinstance-union-item-dropped-despite-common-subclass"
 FLAG_KEY = "flag-enum-narrowed-as-closed-set-of-named-members"
 FIN_KEY = "break-through-finally-ignores-finally-assignments"
+SWAP_KEY = "tuple-assignment-swap-reads-updated-narrowing"
+WALRUS_KEY = "walrus-in-if-condition-narrowing-survives-merge"
 
 
 def units_of(p: dict) -> list[tuple[str, list[int]]]:
@@ -2413,7 +2431,8 @@ def wide_stage(ctx: vlib.Ctx, tmp: str, n: int, n_flow: int | None = None) -> No
             if bad is None and hit:
                 bad = f"line {hit[0]}, reported unreachable by mypy, was executed"
             if bad is not None:
-                key = {"loop_chain": CAP_KEY, "mi_isinstance": MI_KEY, "directed:flag-identity": FLAG_KEY}.get(fam) or f"wide:{fam}:{re.sub(r'[0-9]+', 'N', bad[:70])}"
+                key = {"loop_chain": CAP_KEY, "mi_isinstance": MI_KEY, "directed:flag-identity": FLAG_KEY,
+                       "directed:swap-narrowed": SWAP_KEY, "directed:walrus-condition": WALRUS_KEY}.get(fam) or f"wide:{fam}:{re.sub(r'[0-9]+', 'N', bad[:70])}"
                 ctx.violation(key, f"[{fam}] mypy accepts the program but {bad}", {"kind": "wide", "family": fam, "src": mods[m], "call": r["call"], "outcome": r})
 
 
@@ -2503,7 +2522,7 @@ def replay(ctx: vlib.Ctx, path: str) -> None:
 FLOW_HEADER = """from __future__ import annotations
 from enum import Enum, Flag
 from types import TracebackType
-from typing import Callable, Dict, List, Optional, Tuple, Type, Union
+from typing import Callable, Dict, List, Literal, Optional, Set, Tuple, Type, Union, final
 class E1(Exception):
     pass
 class E2(Exception):
@@ -2541,6 +2560,37 @@ class Plain:
         return self
     def __exit__(self, t: Optional[Type[BaseException]], v: Optional[BaseException], tb: Optional[TracebackType]) -> None:
         return None
+class Lenny:
+    def __init__(self, n: int) -> None:
+        self.n = n
+    def __len__(self) -> int:
+        return self.n
+class LennyChild(Lenny):
+    pass
+@final
+class FinalLenny(Lenny):
+    pass
+class Booly:
+    def __init__(self, b: bool) -> None:
+        self.b = b
+    def __bool__(self) -> bool:
+        return self.b
+class NeverTrue:
+    def __bool__(self) -> Literal[False]:
+        return False
+class Sealed:
+    def __init__(self, parts: List[int]) -> None:
+        self.frozen = tuple(parts)
+class Open:
+    def __init__(self) -> None:
+        self.parts: List[int] = []
+    def __iadd__(self, v: int) -> Union[Open, Sealed]:
+        if v < 0:
+            return Sealed(self.parts)
+        self.parts.append(v)
+        return self
+    def __ior__(self, v: int) -> Union[Open, Sealed]:
+        return Sealed(self.parts + [v])
 TRIGGER: List[int] = [0]
 def mark(k: int) -> None:
     if TRIGGER[0] == k:
@@ -2554,7 +2604,24 @@ def mark(k: int) -> None:
 # kind -> (annotation, [value expressions], [narrowing conditions on {x}], match arms)
 FLOW_KINDS: dict[str, tuple[str, list[str], list[str], list[str]]] = {
     "oi": ("Optional[int]", ["None", "1", "0", "7"], ["{x} is None", "{x} is not None", "{x}", "not {x}", "isinstance({x}, int)"],
-           ["case None:", "case int():", "case _:"]),
+           ["case None:", "case int(0):", "case int(n0) if n0 > 3:", "case 1 | 2:", "case int():", "case _:"]),
+    "num": ("Union[int, float, str]", ["1", "0", "2.5", "0.0", "'s'", "''"],
+            ["isinstance({x}, int)", "isinstance({x}, (int, float))", "isinstance({x}, str)", "not {x}", "{x} == 0"],
+            ["case int(0):", "case float(f0) if f0 > 1.0:", "case str('s'):", "case int() | float():", "case str(s0):", "case _:"]),
+    "bts": ("Union[bytes, str, bool, None]", ["None", "b'x'", "b''", "'x'", "True", "False"],
+            ["{x} is None", "isinstance({x}, bytes)", "isinstance({x}, (bytes, str))", "not {x}", "{x} is True"],
+            ["case None:", "case bytes(b'x'):", "case bool(True):", "case str('x') | bytes():", "case bool(bb):", "case _:"]),
+    "col2": ("Union[Set[int], List[int], Tuple[int, ...], None]", ["None", "{{1}}", "set()", "[1, 2, 3]", "[]", "(1, 2)", "()"],
+             ["{x} is None", "isinstance({x}, set)", "isinstance({x}, (list, tuple))", "not {x}", "{x}"],
+             ["case None:", "case set():", "case [first, *rest]:", "case []:", "case list(l0):", "case tuple():", "case _:"]),
+    "tru": ("Union[Lenny, LennyChild, FinalLenny, Booly, NeverTrue, int]",
+            ["Lenny(0)", "Lenny(2)", "LennyChild(0)", "FinalLenny(0)", "FinalLenny(3)", "Booly(True)", "Booly(False)", "NeverTrue()", "0", "4"],
+            ["{x}", "not {x}", "isinstance({x}, Lenny)", "isinstance({x}, int)", "not {x} or isinstance({x}, Booly)",
+             "{x} and not isinstance({x}, int)", "isinstance({x}, FinalLenny) and not {x}"],
+            ["case int():", "case FinalLenny():", "case Lenny(n=0):", "case Booly(b=True):", "case _:"]),
+    "acc": ("Union[Open, Sealed]", ["Open()", "Sealed([1])"],
+            ["isinstance({x}, Open)", "isinstance({x}, Sealed)", "not isinstance({x}, Open)"],
+            ["case Open():", "case Sealed(frozen=()):", "case _:"]),
     "ois": ("Union[int, str, None]", ["None", "2", "'s'", "''"],
             ["{x} is None", "isinstance({x}, str)", "isinstance({x}, int)", "isinstance({x}, (int, str))", "not {x}", "{x} is not None and isinstance({x}, int)"],
             ["case None:", "case int():", "case str() if len({x}) > 0:", "case str():", "case _:"]),
@@ -2579,9 +2646,9 @@ FLOW_KINDS: dict[str, tuple[str, list[str], list[str], list[str]]] = {
     "obj": ("Union[A, B, None]", ["None", "A(1)", "B(2)"],
             ["{x} is None", "isinstance({x}, B)", "isinstance({x}, A)", "{x} is not None and {x}.v > 1", "not {x}"],
             ["case None:", "case B(v=vv):", "case A(v=1):", "case A():", "case _:"]),
-    "seq": ("Union[List[int], Tuple[int, str], Dict[str, int], None]", ["None", "[1, 2]", "[]", "(3, 'p')", "{{'k': 1}}", "{{}}"],
+    "seq": ("Union[List[int], Tuple[int, str], Dict[str, int], None]", ["None", "[1, 2]", "[]", "(3, 'p')", "{{'k': 1}}", "{{}}", "{{'k': 2, 'j': 3}}"],
             ["{x} is None", "isinstance({x}, list)", "isinstance({x}, dict)", "isinstance({x}, tuple)", "not {x}"],
-            ["case None:", "case [p0, p1]:", "case []:", "case (int(), str()):", "case {{'k': kv}}:", "case dict():", "case _:"]),
+            ["case None:", "case [p0, p1]:", "case []:", "case (int(), str()):", "case {{'k': 1}}:", "case {{'k': kv, **rest}}:", "case dict(d0):", "case list([q0, *qs]):", "case _:"]),
 }
 
 
@@ -2592,6 +2659,8 @@ class FlowGen:
         self.names = 0
         ks = sorted(FLOW_KINDS)
         self.vars = {f"x{i}": self.r.choice(ks) for i in range(self.r.randint(2, 3))}
+        if self.r.random() < 0.35:
+            self.vars["x9"] = self.vars["x0"]          # a second local of the same kind (unpacking targets)
 
     def fresh(self, p: str) -> str:
         self.names += 1
@@ -2607,6 +2676,22 @@ class FlowGen:
     def mark(self, ind: str) -> list[str]:
         self.marks += 1
         return [f"{ind}mark({self.marks})"]
+
+    def special_assign(self, ind: str) -> list[str]:
+        """augmented assignment through __iadd__/__ior__, or unpacking into two locals of the same kind"""
+        r = self.r
+        ints = [x for x, k in sorted(self.vars.items()) if k in ("oi", "ois", "coli", "one", "num")]
+        if ints and r.random() < 0.6:
+            x = r.choice(ints)
+            return [f"{ind}if isinstance({x}, int):", f"{ind}    {x} {r.choice(['+=', '-=', '*='])} {r.choice([1, 2])}"]
+        xs = sorted(self.vars)
+        pairs = [(a, b) for a in xs for b in xs if a < b and self.vars[a] == self.vars[b]]
+        if pairs:
+            a, b = r.choice(pairs)
+            vals = FLOW_KINDS[self.vars[a]][1]
+            v1, v2 = (r.choice(vals).replace('{{', '{').replace('}}', '}') for _ in range(2))
+            return [f"{ind}{a}, {b} = {v1}, {v2}"]
+        return self.assign(ind)
 
     def cond(self) -> str:
         x = self.r.choice(sorted(self.vars))
@@ -2624,8 +2709,10 @@ class FlowGen:
         r = self.r
         k = r.random()
         i2 = ind + "    "
-        if depth <= 0 or k < 0.30:
+        if depth <= 0 or k < 0.24:
             return self.assign(ind) + (self.mark(ind) if r.random() < 0.5 else [])
+        if k < 0.30:
+            return self.special_assign(ind)
         if k < 0.36:
             return self.mark(ind)
         if k < 0.50:
@@ -2647,7 +2734,8 @@ class FlowGen:
             return out
         if k < 0.76:
             mgr = r.choice(["Maybe(True)", "Maybe(False)", "Maybe(trigger % 2 == 0)", "Plain()"])
-            return [f"{ind}with {mgr}:"] + self.block(i2, depth - 1, None, in_loop)
+            alias = f" as {self.fresh('m')}" if r.random() < 0.4 else ""
+            return [f"{ind}with {mgr}{alias}:"] + self.block(i2, depth - 1, None, in_loop)
         if k < 0.86:
             if r.random() < 0.5:
                 i = self.fresh("i")
@@ -2794,6 +2882,123 @@ def directed_shard() -> list[tuple[str, str, list[str]]]:
     calls = ["run(Kind.K1, Kind.K2, One.ONLY, True)", "run(Kind.K1, Kind.K1, 3, False)", "run(5, Kind.K2, None, 's')",
              "run(Kind.K2, Kind.K1, One.ONLY, '')"]
     out.append(("identity-enums", src, calls))
+    # (a) class patterns on self-matching builtins with sub-patterns, later cases use what remains
+    src = H + """def run(code: Union[int, str, bool, None]) -> str:
+    match code:
+        case int(0):
+            reveal_type(code)
+            return "zero"
+        case str("x"):
+            return "ex"
+        case bool(True):
+            return "t"
+        case None:
+            return "n"
+        case _:
+            reveal_type(code)
+            return "other"
+def run2(v: Union[List[int], Tuple[int, str], Dict[str, int], float]) -> int:
+    match v:
+        case [first, *rest] if first > 1:
+            reveal_type(v)
+            return first
+        case list([]):
+            return 0
+        case {"k": 1, **others}:
+            reveal_type(others)
+            return 1
+        case float(0.5) | (1, "a"):
+            reveal_type(v)
+            return 2
+        case _:
+            reveal_type(v)
+            return 3
+"""
+    out.append(("match-builtin-subpatterns", src,
+                ["run(0)", "run(2)", "run('x')", "run('y')", "run(True)", "run(False)", "run(None)",
+                 "run2([2, 3])", "run2([1])", "run2([])", "run2({'k': 1, 'z': 2})", "run2({'k': 2})", "run2(0.5)", "run2(1.5)", "run2((1, 'a'))", "run2((2, 'b'))"]))
+    # (b) augmented assignment through __iadd__ / __ior__ returning another member of the union
+    # (rejected by a correct checker: the result of __iadd__ is not a subtype of the narrowed type; it must not become
+    #  accepted with the narrowing kept)
+    src = H + """def run(v: int) -> int:
+    acc: Union[Open, Sealed] = Open()
+    acc = Open()
+    reveal_type(acc)
+    acc += v
+    reveal_type(acc)
+    return 0
+def run2(v: int, acc: Union[Open, Sealed]) -> int:
+    if isinstance(acc, Open):
+        acc |= v
+        reveal_type(acc)
+    return 0
+"""
+    out.append(("augmented-iadd-narrowed", src, ["run(1)", "run(-1)", "run2(1, Open())"]))
+    src = H + """def run(v: int) -> int:
+    n: int = 0
+    n = True
+    reveal_type(n)
+    n += v
+    reveal_type(n)
+    s: Union[str, int, None] = None
+    s = "a"
+    s += "b"
+    s *= 2
+    reveal_type(s)
+    s = 3
+    s -= 1
+    reveal_type(s)
+    return n
+"""
+    out.append(("augmented-plain", src, ["run(1)", "run(-1)"]))
+    # (c) truthiness of classes with __bool__/__len__ direct, inherited, via a @final subclass, Literal[False]
+    src = H + """def run(b: Union[FinalLenny, int], c: Union[LennyChild, None], d: Union[NeverTrue, str], e: Union[Booly, Lenny, None]) -> int:
+    if b:
+        reveal_type(b)
+    else:
+        reveal_type(b)
+    if not c:
+        reveal_type(c)
+    else:
+        reveal_type(c)
+    if d:
+        reveal_type(d)
+    else:
+        reveal_type(d)
+    if e and not isinstance(e, Lenny):
+        reveal_type(e)
+    else:
+        reveal_type(e)
+    x = b or c or d
+    reveal_type(x)
+    return 0
+"""
+    out.append(("truthiness-classes", src,
+                ["run(FinalLenny(0), LennyChild(0), NeverTrue(), Booly(False))", "run(FinalLenny(2), None, 's', Lenny(0))",
+                 "run(0, LennyChild(3), '', None)", "run(5, None, NeverTrue(), Booly(True))"]))
+    # (d) tuple assignment reading a local it has just re-narrowed; walrus in an `if` condition  (both: findings)
+    src = H + """def run(flag: bool) -> int:
+    a: Union[int, str] = 1
+    b: Union[int, str] = "s"
+    a = 1
+    b = "s"
+    a, b = b, a
+    reveal_type(a)
+    reveal_type(b)
+    return 0
+"""
+    out.append(("swap-narrowed", src, ["run(True)"]))
+    src = H + """def opt(n: int) -> Optional[int]:
+    return n if n > 0 else None
+def run(n: int) -> int:
+    x: Optional[int] = None
+    x = 5
+    if (x := opt(n)) is not None:
+        reveal_type(x)
+    reveal_type(x)
+    return 0
+"""
+    out.append(("walrus-condition", src, ["run(0)", "run(3)"]))
     # Flag enums: composite values are members of the class but of none of its named literals
     src = H + """def run(p: Union[Perm, None]) -> int:
     if p is Perm.R:
